@@ -204,13 +204,18 @@ def run_scenario(sc: dict[str, Any]) -> dict[str, Any]:
             sim.rec('stall', what=str(e))
         raw = sim.recorder.events
         tr = convert(raw, hs, sc)
+        orch = None
+        o_ = state['op']
+        if not stall and o_ is not None and not o_.killed and not o_.done:      # the orchestrator of the process that is alive at the end
+            from vf import orchestration
+            orch = orchestration.trace_of(raw, o_.name, f'{sc["id"]}/{o_.name}', sim.insights_of(o_.name))
         livelock = stall and (sim.recorder.overflow or 'loop iterations' in str(sim.world.stalled or ''))
         if livelock:
             # the operator never came to rest within one instant: keep a prefix of the run (it is validated like any other run) and
             # mark where it was cut; whether the livelock belongs to a known family is decided by the specification (Family_F9)
             cut = tr['events'][:600]
             tr['events'] = cut + [{'ev': 'livelock', 't': cut[-1]['t'] if cut else 0}]
-        return {'id': sc['id'], 'conf': conf_of(sc), 'init': tr['init'], 'events': tr['events'], 'stall': stall, 'livelock': bool(livelock), 'scenario': sc,
+        return {'id': sc['id'], 'conf': conf_of(sc), 'init': tr['init'], 'events': tr['events'], 'stall': stall, 'livelock': bool(livelock), 'scenario': sc, 'orch': orch,
                 'final': project(sim.things, sim.obj('o1')) if sim.obj('o1') else None,
                 'patches_tail': len([e for e in raw if e['ev'] == 'srv.req' and e.get('kind') == 'patch'
                                      and e['t'] > sc.get('tail_from', sc['end'])])}
